@@ -137,6 +137,9 @@ pub struct Cmd {
     pub tag: &'static str,
     /// read all outstanding answers after sending this command
     pub flush: bool,
+    /// bytes appended to the request id (0 = the usual short id): the answer echoes the id, so
+    /// this sizes the answer; > 0 marks a command of a back-pressure episode
+    pub pad: usize,
 }
 
 pub fn req(rt: &RequestType) -> Request {
@@ -319,7 +322,7 @@ impl<'a> Gen<'a> {
         if !tag.is_empty() {
             self.patterns.insert(tag);
         }
-        self.out.push(Cmd { rt, tag, flush: true });
+        self.out.push(Cmd { rt, tag, flush: true, pad: 0 });
     }
 
     fn invalid(&mut self) -> bool {
@@ -1036,6 +1039,34 @@ impl<'a> Gen<'a> {
         self.push(rt, tag);
     }
 
+    /// Back-pressure episode: a handful of commands whose answers are large (the answer echoes the
+    /// request id, padded to 0.5..1.6 MB: around and above half of the default 2 MB
+    /// max_command_buffer_size), written back-to-back while the harness does not read the channel,
+    /// then drained slowly. The worker's channel must hold or re-queue every answer.
+    pub fn backpressure_episode(&mut self) {
+        let tag = "channel:large-answers-while-main-does-not-read";
+        let k = self.rng.urange(3, 7);
+        let first = self.out.len();
+        while self.out.len() < first + k {
+            let before = self.out.len();
+            match self.rng.below(4) {
+                0 => self.gen_backend_cmd(),
+                1 => self.gen_cluster_cmd(),
+                _ => self.gen_worker_level_cmd(),
+            }
+            for c in self.out[before..].iter_mut() {
+                c.tag = tag;
+            }
+        }
+        self.out.truncate(first + k);
+        self.patterns.insert(tag);
+        for i in first..first + k {
+            let big = self.rng.chance(3, 4);
+            self.out[i].pad = if big { self.rng.urange(1_050_000, 1_600_000) } else { self.rng.urange(300_000, 900_000) };
+            self.out[i].flush = i + 1 == first + k;
+        }
+    }
+
     pub fn one(&mut self) {
         if self.rng.chance(1, 5) {
             return self.pattern();
@@ -1096,6 +1127,7 @@ pub fn generate(rng: &mut Rng, cell: Cell, max_len: usize) -> Plan {
     let traffic = rng.chance(1, 4);
     let c07 = !burst && rng.chance(1, 2);
     let inflight = !raw && rng.chance(2, 5);
+    let backpressure = rng.chance(1, 12);
     let closing = match rng.below(10) {
         0 => Closing::HardStop,
         1..=2 => Closing::ReturnThenSoftStop,
@@ -1108,6 +1140,15 @@ pub fn generate(rng: &mut Rng, cell: Cell, max_len: usize) -> Plan {
             g.one();
         }
         g.out.truncate(n.max(10));
+        if backpressure {
+            g.backpressure_episode();
+            for _ in 0..g.rng.urange(0, 5) {
+                g.gen_worker_level_cmd();
+            }
+            if g.rng.bool() {
+                g.backpressure_episode();
+            }
+        }
         if inflight {
             // make sure a request can be in flight when the soft stop arrives
             g.route_pattern_http();
@@ -1115,7 +1156,7 @@ pub fn generate(rng: &mut Rng, cell: Cell, max_len: usize) -> Plan {
         (g.out, g.patterns.into_iter().collect::<Vec<_>>())
     };
     if burst {
-        for c in cmds.iter_mut() {
+        for c in cmds.iter_mut().filter(|c| c.pad == 0) {
             c.flush = rng.chance(1, 8);
         }
     }
@@ -1130,7 +1171,9 @@ pub fn plan_json(p: &Plan) -> Value {
         "closing": format!("{:?}", p.closing),
         "commands": p.cmds.iter().map(|c| {
             let d = describe(&c.rt);
-            if p.burst && c.flush { json!([d, "<read answers>"]) } else { d }
+            if c.pad > 0 {
+                json!([d, format!("id padded with {} bytes{}", c.pad, if c.flush { "; then no read for 300 ms, then a slow drain" } else { "; next command written without reading" })])
+            } else if p.burst && c.flush { json!([d, "<read answers>"]) } else { d }
         }).collect::<Vec<_>>(),
     })
 }
